@@ -49,9 +49,54 @@ func isContainsCall(v ssa.Value) *ssa.Call {
 		name = f.Name()
 	}
 	if name != "Contains" {
+		// a wrapper of the package that returns the answer of one Contains call
+		if inner, _ := containsWrapper(call); inner != nil {
+			return call
+		}
 		return nil
 	}
 	return call
+}
+
+// containsWrapper: call invokes a single-block repository function whose
+// result is (the negation of) one Contains call; that inner call.
+func containsWrapper(call *ssa.Call) (inner *ssa.Call, negated bool) {
+	f := call.Call.StaticCallee()
+	if f == nil || len(f.Blocks) != 1 || f.Pkg == nil || !strings.HasPrefix(f.Pkg.Pkg.Path(), repoMod) {
+		return nil, false
+	}
+	ret, ok := f.Blocks[0].Instrs[len(f.Blocks[0].Instrs)-1].(*ssa.Return)
+	if !ok || len(ret.Results) != 1 {
+		return nil, false
+	}
+	v := ret.Results[0]
+	if un, ok := v.(*ssa.UnOp); ok && un.Op == token.NOT {
+		v, negated = un.X, true
+	}
+	c2, ok := v.(*ssa.Call)
+	if !ok {
+		return nil, false
+	}
+	name := ""
+	if c2.Call.IsInvoke() {
+		name = c2.Call.Method.Name()
+	} else if g := c2.Call.StaticCallee(); g != nil {
+		name = g.Name()
+	}
+	if name != "Contains" {
+		return nil, false
+	}
+	return c2, negated
+}
+
+// testedPointArgs: the values the tested point is computed from at this
+// (possibly wrapped) Contains call: the point itself, or all arguments of the
+// wrapper.
+func testedPointArgs(call *ssa.Call) []ssa.Value {
+	if inner, _ := containsWrapper(call); inner != nil {
+		return call.Call.Args
+	}
+	return call.Call.Args[len(call.Call.Args)-1:]
 }
 
 // containsEdges: for an If on Contains (possibly negated) the successor taken
@@ -70,6 +115,9 @@ func containsEdges(b *ssa.BasicBlock) (call *ssa.Call, yes, no *ssa.BasicBlock) 
 	}
 	yes, no = b.Succs[0], b.Succs[1]
 	if un, ok := ifi.Cond.(*ssa.UnOp); ok && un.Op == token.NOT {
+		yes, no = no, yes
+	}
+	if _, neg := containsWrapper(call); neg {
 		yes, no = no, yes
 	}
 	return
@@ -461,8 +509,13 @@ func (c *Ctx) bpPreLoop(prefix, key string, fn *ssa.Function, inside *ssa.Phi) {
 			onYes = ephi.Edges[i]
 		}
 	}
-	arg := pre.Call.Args[len(pre.Call.Args)-1]
-	if onYes != nil && dependsOnValue(arg, onYes, 0, map[ssa.Value]bool{}) {
+	dep := false
+	for _, arg := range testedPointArgs(pre) {
+		if onYes != nil && dependsOnValue(arg, onYes, 0, map[ssa.Value]bool{}) {
+			dep = true
+		}
+	}
+	if dep {
 		c.ok(prefix+".PRE", key+" pre-loop validation", pre.Pos(), "the value whose point was found contained becomes the inside end")
 	} else {
 		c.bad(prefix+".PRE", key+" pre-loop validation", pre.Pos(), "the pre-loop Contains test and the swap disagree: the end validated as contained is not the one the loop treats as inside")
@@ -531,8 +584,21 @@ func (c *Ctx) runBisectionSameExpr(prefix string) {
 		tested := ""
 		for _, b := range rng.Blocks {
 			if call, _, _ := containsEdges(b); call != nil {
-				arg := call.Call.Args[len(call.Call.Args)-1]
-				tested = canon(arg, map[ssa.Value]string{rng.Params[1]: "P1", rng.Params[2]: "P2"})
+				names := map[ssa.Value]string{rng.Params[1]: "P1", rng.Params[2]: "P2"}
+				if inner, _ := containsWrapper(call); inner != nil {
+					// the wrapper's own expression over this call's arguments
+					w := call.Call.StaticCallee()
+					wnames := map[ssa.Value]string{}
+					for i, prm := range w.Params {
+						if i < len(call.Call.Args) {
+							wnames[prm] = canon(call.Call.Args[i], names)
+						}
+					}
+					tested = canon(inner.Call.Args[len(inner.Call.Args)-1], wnames)
+				} else {
+					arg := call.Call.Args[len(call.Call.Args)-1]
+					tested = canon(arg, names)
+				}
 			}
 		}
 		if tested == "" || tested == "?" {
